@@ -23,10 +23,14 @@ structure Env where
 
 def debuggers : List String := ["pdb.set_trace", "ipdb.set_trace", "breakpoint"]
 
-/-- The four early returns of `visit_Call`. -/
-def keep (env : Env) (ctx full : String) : Bool :=
-  full.startsWith "ag__." || full.startsWith (ctx ++ ".") || debuggers.contains full
-    || (full == "print" && !env.builtinsOn)
+/-- The four early returns of `visit_Call`, on `full_name = str(anno.getanno(node.func, anno.Basic.QN, default=''))`.
+A callee without QN gives `''`, which passes none of the tests (`''.startswith(p)` is False for the non-empty
+prefixes `'ag__.'` and `ctx + '.'`): `none ↦ false`. -/
+def keep (env : Env) (ctx : String) : Option String → Bool
+  | none => false
+  | some full =>
+      full.startsWith "ag__." || full.startsWith (ctx ++ ".") || debuggers.contains full
+        || (full == "print" && !env.builtinsOn)
 
 /-! `_ArgTemplateBuilder` -/
 def consume (acc : List Expr) (spec : List Expr) : List Expr :=
@@ -58,7 +62,7 @@ def convertedCall (ctx : String) (f : Expr) (args kws : List Expr) : Expr :=
 mutual
 def visitE (env : Env) (ctx : String) : Expr → Expr
   | .call i f as ks =>
-      let full := (qnStr f).getD ""
+      let full := qnStr f
       let f' := visitE env ctx f
       let as' := visitEs env ctx as
       let ks' := visitEs env ctx ks
